@@ -11,6 +11,7 @@ EXPLANATION = (
     "TYREACH (no source position in Inp/DFA: rustc-checked witness + failing twin), SPANUSE (Inp::from_input discards the span in every arm), INTERN-EQ (what 'same within-word automaton' means: DFA's manual PartialEq/Hash). "
     "Two design-level findings are open (F-C09-1 fallback level in symbol identity, F-C09-2 structural interning of within-word automata); a NEW identity field or projection is reported separately. "
     "NOT decided: the `||` -> `|` equivalence over all grammars and command lines."
+    " SK-SUB S7/S8, PREC, DECLGUARD (bash, zsh, fish) and RP of every rebuilding pass are shared with C01/C02/C04."
 )
 ASSUMPTIONS = ["derive(PartialEq, Eq, Hash) compares exactly the declared fields", "rustc's trait solver for the NoSpan witness"]
 
